@@ -591,6 +591,72 @@ theorem genMetricLim_refused {nd : Node} (c : Cfg) (inv : MetaInv nd) (nb ns nam
         rw [Option.isNone_iff_eq_none.1 h2.1]
     · rcases href with h | h <;> cases h
 
+/-- the LRU sequence cache may drop any entry at any time: the cover invariant does not need it -/
+theorem coverInv_evictSeq {sh : Shard} (inv : CoverInv sh) (m : Nat) : CoverInv (sh.evictSeq m) := by
+  obtain ⟨a, b, c, d, e, f, g⟩ := inv
+  refine ⟨a, b, c, d, e, f, ?_⟩
+  intro m' c' hc'
+  have hc'' : (if m' = m then none else sh.seqCache m') = some c' := hc'
+  by_cases hm : m' = m
+  · rw [if_pos hm] at hc''; cases hc''
+  · rw [if_neg hm] at hc''; exact g m' c' hc''
+
+/-- the cache entry, while it is there, is the largest posting of its metric: `GenSeriesID` adds the new id to
+the cache and to the mutable postings in one go, postings only move towards the disk, a crash empties the cache -/
+def CacheTight (sh : Shard) : Prop := ∀ m c, sh.seqCache m = some c → (m, c) ∈ sh.minv.all
+
+/-- **eviction does not change the next series id**: with a tight cache entry the
+miss branch (`max(postings) + 1`) computes what the hit branch (`cache + 1`) computes -/
+theorem evictSeq_same_next {sh : Shard} (inv : CoverInv sh) (ht : CacheTight sh) (m : Nat) :
+    (sh.evictSeq m).createSeriesID m = sh.createSeriesID m := by
+  unfold Shard.createSeriesID
+  have he : (sh.evictSeq m).seqCache m = none := by simp [Shard.evictSeq]
+  have hs : (sh.evictSeq m).metricSeries m = sh.metricSeries m := rfl
+  rw [he, hs]
+  cases hc : sh.seqCache m with
+  | none => rfl
+  | some c =>
+    have hmem : c ∈ sh.metricSeries m := by
+      unfold Shard.metricSeries
+      exact List.mem_map.2 ⟨(m, c), List.mem_filter.2 ⟨ht m c hc, by simp⟩, rfl⟩
+    have hle : ∀ i ∈ sh.metricSeries m, i ≤ c := by
+      intro i hi
+      unfold Shard.metricSeries at hi
+      obtain ⟨⟨m', i'⟩, hf, rfl⟩ := List.mem_map.1 hi
+      obtain ⟨hin, hm'⟩ := List.mem_filter.1 hf
+      have : m' = m := by simpa using hm'
+      subst this
+      exact inv.cache _ c hc _ hin
+    have hmax : ∀ (l : List Nat), c ∈ l → (∀ i ∈ l, i ≤ c) → maxList l = c := by
+      intro l
+      induction l with
+      | nil => intro h; cases h
+      | cons a r ih =>
+        intro hin hall
+        have ha : a ≤ c := hall a (List.mem_cons_self ..)
+        have hr : maxList r ≤ c := by
+          clear ih hin
+          induction r with
+          | nil => exact Nat.zero_le _
+          | cons b r' ih' =>
+            have hb : b ≤ c := hall b (List.mem_cons_of_mem _ (List.mem_cons_self ..))
+            have := ih' (fun i hi => by
+              rcases List.mem_cons.1 hi with h | h
+              · exact h ▸ ha
+              · exact hall i (List.mem_cons_of_mem _ (List.mem_cons_of_mem _ h)))
+            show max b (maxList r') ≤ c
+            exact Nat.max_le.2 ⟨hb, this⟩
+        show max a (maxList r) = c
+        rcases List.mem_cons.1 hin with h | h
+        · subst h; exact Nat.max_eq_left hr
+        · have := ih h (fun i hi => hall i (List.mem_cons_of_mem _ hi))
+          rw [this]; exact Nat.max_eq_right ha
+    cases hl : sh.metricSeries m with
+    | nil => rw [hl] at hmem; cases hmem
+    | cons a l =>
+      show maxList (a :: l) + 1 = c + 1
+      rw [← hl, hmax _ hmem hle]
+
 theorem nodeCover_fstep {c : Cfg} (hc : c.seriesLimitFirst = true) (hp : c.prepareSwapsEmpty = true)
     (ha : c.indexFlushAborts = true) {nd : Node} (inv : NodeCover nd) (op : FOp) :
     NodeCover (fstep c [0, 1, 2, 3] nd op) := by
@@ -601,6 +667,7 @@ theorem nodeCover_fstep {c : Cfg} (hc : c.seriesLimitFirst = true) (hp : c.prepa
     rw [ha]
     exact nodeCover_setShard inv sh (coverInv_flushFault (inv sh) k)
   | metricLim nb ns name => exact nodeCover_of_shards (genMetricLim_shards c nd nb ns name) inv
+  | evictSeq sh m => exact nodeCover_setShard inv sh (coverInv_evictSeq (inv sh) m)
 
 theorem nodeCover_frun {c : Cfg} (hc : c.seriesLimitFirst = true) (hp : c.prepareSwapsEmpty = true)
     (ha : c.indexFlushAborts = true) (ops : List FOp) : ∀ {nd : Node}, NodeCover nd → NodeCover (frun c [0, 1, 2, 3] nd ops) := by
